@@ -121,7 +121,10 @@ class BundleContainer(object):
 
         blk.ensure_block_type_specific_data()
 
-        self.bundle.blocks.insert(-1, blk)
+        # not in place: an absent list is the shared field default
+        blocks = list(self.bundle.blocks)
+        blocks.insert(-1, blk)
+        self.bundle.blocks = blocks
         self._block_num[blk_num] = blk
         self._block_types(blk_type).append(blk)
         self._block_types(pyld_cls).append(blk)
